@@ -10,13 +10,14 @@ import os
 
 import numpy as np
 
-from .. import core, env, gen, kdriver, mutate, specs
+from .. import core, editwalk, env, gen, kdriver, mutate, specs
 from .. import tdfref as R
 
 PROP = "C14"
 RULE = ("states = (base block, partner) pairs; partners: self, rebuilt, decode(encode), and every single-site mutation "
         "(each header scalar, label, channel, sample changed by >=1.0 and >=50%, moved gap, item appended / removed "
         "first-middle-last); both directions; plus file pairs; non-trivial = pair involves a gap, >=2 items or a mutation")
+RULE = RULE + editwalk.RULE_SUFFIX
 ASSUMPTIONS = [
     "'beyond float tolerance' = changed by at least 1.0 and at least 50 % (numpy allclose defaults are 1e-5 / 1e-8)",
     "only same-kind pairs are compared (the statement's quantifier)",
@@ -206,10 +207,14 @@ def files_shard(_):
 
 def run(tier):
     _shard.tier = tier
-    return core.pmap(__name__, "_shard", [("files",)] + [("blocks", t) for t in R.WRITABLE])
+    acc = core.pmap(__name__, "_shard", [("files",)] + [("blocks", t) for t in R.WRITABLE])
+    acc.merge(core.pmap("mc.editwalk", "run_shard", editwalk.shards(PROP, tier)))
+    return acc
 
 
 def replay(w):
+    if w.get("editwalk"):
+        return editwalk.replay(w)
     if "files" in w:
         acc = files_shard(None)
         for v in acc.violations:
